@@ -7,6 +7,7 @@ import (
 	"fmt"
 	"hash/fnv"
 	"os"
+	"os/exec"
 	"runtime"
 	"runtime/debug"
 	"sort"
@@ -122,18 +123,18 @@ type decision struct {
 
 // Task is a goroutine known to the simulator.
 type Task struct {
-	Name     string
-	gid      int64
-	resume   chan decision
-	parked   *parkOp
-	exited   bool
-	lib      bool
-	children map[string]int
-	notBefore time.Duration
-	holding   int
+	Name        string
+	gid         int64
+	resume      chan decision
+	parked      *parkOp
+	exited      bool
+	lib         bool
+	children    map[string]int
+	notBefore   time.Duration
+	holding     int
 	quarantined bool
-	prio      int  // PCT priority (0 = not assigned yet)
-	idleSeq   int64 // value of exitSeq when an exit-sensitive idle wait began (-1: not sensitive)
+	prio        int   // PCT priority (0 = not assigned yet)
+	idleSeq     int64 // value of exitSeq when an exit-sensitive idle wait began (-1: not sensitive)
 }
 
 type lockState struct {
@@ -144,34 +145,35 @@ type lockState struct {
 
 // Sim is one simulated run.
 type Sim struct {
-	T     *testing.T
-	Tape  *Tape
-	opts  Options
-	mu    quietMutex
-	all   []*Task
-	locks []*lockState // (no maps in tables shared between goroutines: map operations carry race-detector hooks of their own)
-	probeLog []string
-	faultLog []string
-	wake  chan struct{}
-	last  *Task
-	step  int
-	start time.Time
-	stick int
-	strategy string // sticky | pct
-	pctChange []int // PCT: steps at which the running task's priority drops below everybody's
+	T         *testing.T
+	Tape      *Tape
+	opts      Options
+	mu        quietMutex
+	all       []*Task
+	locks     []*lockState // (no maps in tables shared between goroutines: map operations carry race-detector hooks of their own)
+	probeLog  []string
+	faultLog  []string
+	procs     []*simProc
+	wake      chan struct{}
+	last      *Task
+	step      int
+	start     time.Time
+	stick     int
+	strategy  string // sticky | pct
+	pctChange []int  // PCT: steps at which the running task's priority drops below everybody's
 	pctLow    int
-	dead  atomic.Bool
+	dead      atomic.Bool
 
-	res      *Result
-	hash     uint64
-	rootDone bool
-	spinTask *Task
-	spinN    int
-	spinAt   time.Duration
+	res       *Result
+	hash      uint64
+	rootDone  bool
+	spinTask  *Task
+	spinN     int
+	spinAt    time.Duration
 	spinSites map[string]bool
-	exitSeq  int64
-	anon     int
-	abort    string
+	exitSeq   int64
+	anon      int
+	abort     string
 
 	ioCount int
 	// OnFault performs the armed fault (set by the scenario); ref is the *Conn or *Pipe of the I/O point.
@@ -195,7 +197,7 @@ var lastResult atomic.Pointer[Result]
 func LastResult() *Result { return lastResult.Load() }
 
 var schedSeq atomic.Int64 // incremented before every quiescence wait
-var inWait atomic.Bool   // true while the scheduler waits for quiescence
+var inWait atomic.Bool    // true while the scheduler waits for quiescence
 var watchdogOnce sync.Once
 
 // WatchdogInfo describes the run in progress (for the watchdog's report).
@@ -326,6 +328,7 @@ func (s *Sim) StepNow() int {
 }
 
 // Now is the simulated time since the start of the run.
+//
 //go:norace
 func (s *Sim) Now() time.Duration { return time.Since(s.start) }
 
@@ -355,6 +358,7 @@ func (s *Sim) currentTask() *Task {
 }
 
 // park blocks the calling task until the scheduler releases it.
+//
 //go:norace
 func (s *Sim) park(t *Task, op *parkOp) int {
 	if s.dead.Load() {
@@ -377,6 +381,7 @@ func (s *Sim) park(t *Task, op *parkOp) int {
 }
 
 // Yield is an interleaving point of the calling task.
+//
 //go:norace
 func (s *Sim) Yield(site string) {
 	s.park(s.currentTask(), &parkOp{kind: opYield, site: site})
@@ -384,6 +389,7 @@ func (s *Sim) Yield(site string) {
 
 // Point is an interleaving point at which the scheduler also draws a weighted decision
 // (index 0 = nothing unusual).
+//
 //go:norace
 func (s *Sim) Point(site string, weights []int) int {
 	return s.park(s.currentTask(), &parkOp{kind: opPoint, site: site, weights: weights})
@@ -392,6 +398,7 @@ func (s *Sim) Point(site string, weights []int) int {
 // IOPoint is an interleaving point that belongs to simulated I/O (network or pipe).  I/O points are
 // numbered in execution order; an armed fault (Options.FaultAt) fires when its index comes up, in
 // the task that is about to perform the I/O, before the I/O happens.
+//
 //go:norace
 func (s *Sim) IOPoint(site string, weights []int, ref interface{}) int {
 	d := s.park(s.currentTask(), &parkOp{kind: opPoint, site: site, weights: weights})
@@ -417,6 +424,7 @@ func (s *Sim) IOPoint(site string, weights []int, ref interface{}) int {
 }
 
 // FaultFired reports whether the armed fault of this run has fired.
+//
 //go:norace
 func (s *Sim) FaultFired() bool {
 	s.mu.Lock()
@@ -425,10 +433,12 @@ func (s *Sim) FaultFired() bool {
 }
 
 // ArmedFault returns the fault armed for this run (nil if none).
+//
 //go:norace
 func (s *Sim) ArmedFault() *FaultSpec { return s.opts.FaultAt }
 
 // Sleep lets simulated time pass for the calling task.
+//
 //go:norace
 func (s *Sim) Sleep(d time.Duration) {
 	if d > 0 {
@@ -438,6 +448,7 @@ func (s *Sim) Sleep(d time.Duration) {
 }
 
 // Go starts fn as a named task.  The task parks before its first instruction.
+//
 //go:norace
 func (s *Sim) Go(name string, fn func()) *Task {
 	return s.spawn(name, false, fn)
@@ -513,6 +524,7 @@ func trimStack(st string) string {
 }
 
 // TaskExited reports whether the task has finished.
+//
 //go:norace
 func (s *Sim) TaskExited(t *Task) bool {
 	s.mu.Lock()
@@ -522,6 +534,7 @@ func (s *Sim) TaskExited(t *Task) bool {
 
 // WaitTasks parks the caller until all the given tasks have exited or the deadline of simulated
 // time passes; it returns the tasks still alive.
+//
 //go:norace
 func (s *Sim) WaitTasks(max time.Duration, tasks ...*Task) []*Task {
 	deadline := s.Now() + max
@@ -543,6 +556,7 @@ func (s *Sim) WaitTasks(max time.Duration, tasks ...*Task) []*Task {
 
 // idleWait parks the caller with the lowest priority: it is released only when nothing else is
 // enabled and either max simulated time has passed or (onExit) some task has exited meanwhile.
+//
 //go:norace
 func (s *Sim) idleWait(max time.Duration, onExit bool) {
 	t := s.currentTask()
@@ -557,6 +571,7 @@ func (s *Sim) idleWait(max time.Duration, onExit bool) {
 }
 
 // Settle lets the system run until nothing is enabled and simulated time has advanced by d.
+//
 //go:norace
 func (s *Sim) Settle(d time.Duration) {
 	deadline := s.Now() + d
@@ -566,10 +581,12 @@ func (s *Sim) Settle(d time.Duration) {
 }
 
 // Quiesce lets the system run until nothing is enabled (no simulated time needs to pass).
+//
 //go:norace
 func (s *Sim) Quiesce() { s.idleWait(0, false) }
 
 // Violate records an oracle verdict.
+//
 //go:norace
 func (s *Sim) Violate(sig, format string, args ...interface{}) {
 	s.mu.Lock()
@@ -583,6 +600,7 @@ func (s *Sim) Violate(sig, format string, args ...interface{}) {
 }
 
 // Probe counts that a branch of interest was reached.
+//
 //go:norace
 func (s *Sim) Probe(name string) {
 	s.mu.Lock()
@@ -591,6 +609,7 @@ func (s *Sim) Probe(name string) {
 }
 
 // Fault counts an injected fault.
+//
 //go:norace
 func (s *Sim) Fault(name string) {
 	s.mu.Lock()
@@ -599,6 +618,7 @@ func (s *Sim) Fault(name string) {
 }
 
 // Note attaches free text to the result (shown in replay files).
+//
 //go:norace
 func (s *Sim) Note(format string, args ...interface{}) {
 	s.mu.Lock()
@@ -607,6 +627,7 @@ func (s *Sim) Note(format string, args ...interface{}) {
 }
 
 // LibEvents returns the library-level incidents (panics, aborted handlers) recorded so far.
+//
 //go:norace
 func (s *Sim) LibEvents() []string {
 	s.mu.Lock()
@@ -623,6 +644,7 @@ func (s *Sim) addLibEvent(e string) {
 
 // LiveLibTasks returns the names of library goroutines (started by a `go` statement of the
 // library) that have not exited.
+//
 //go:norace
 func (s *Sim) LiveLibTasks() []string {
 	s.mu.Lock()
@@ -638,6 +660,7 @@ func (s *Sim) LiveLibTasks() []string {
 }
 
 // LockBlocked returns tasks parked on a lock that is held.
+//
 //go:norace
 func (s *Sim) LockBlocked() []string {
 	s.mu.Lock()
@@ -704,6 +727,7 @@ func (s *Sim) record(t *Task, op *parkOp, dec int) {
 }
 
 // schedule is the scheduler loop; it runs on the bubble's root goroutine.
+//
 //go:norace
 func (s *Sim) schedule() {
 	raceDisable() // the scheduler goroutine never orders anybody (never re-enabled: goroutine-local)
@@ -886,6 +910,7 @@ func (s *Sim) schedule() {
 // teardown ends the run.  Parked tasks are abandoned (they stay durably blocked on their resume
 // channel; the bubble is discarded): killing them would run deferred functions that may take real
 // mutexes still held by other abandoned tasks.
+//
 //go:norace
 func (s *Sim) teardown() {
 	s.dead.Store(true)
@@ -925,6 +950,36 @@ func permFrom(code, n int) []int {
 	return res
 }
 
+// ---- simulated child processes -------------------------------------------------------------------------
+
+type simProc struct {
+	cmd    *exec.Cmd
+	exited <-chan struct{}
+	err    func() error
+}
+
+// RegisterProc makes a simulated child process known: (*exec.Cmd).Wait on cmd returns err() once
+// exited is closed.
+//
+//go:norace
+func (s *Sim) RegisterProc(cmd *exec.Cmd, exited <-chan struct{}, err func() error) {
+	s.mu.Lock()
+	s.procs = append(s.procs, &simProc{cmd: cmd, exited: exited, err: err})
+	s.mu.Unlock()
+}
+
+//go:norace
+func (s *Sim) procOf(cmd *exec.Cmd) *simProc {
+	s.mu.Lock()
+	defer s.mu.Unlock()
+	for _, p := range s.procs {
+		if p.cmd == cmd {
+			return p
+		}
+	}
+	return nil
+}
+
 // ---- hooks ------------------------------------------------------------------------------------
 
 //go:norace
@@ -954,6 +1009,21 @@ func installHooks() {
 		return permFrom(0, n)
 	}
 	zzsimhook.SelectBlockFn = nil
+	zzsimhook.CmdWaitFn = func(cmd *exec.Cmd) (error, bool) {
+		s := current.Load()
+		if s == nil {
+			return nil, false
+		}
+		p := s.procOf(cmd)
+		if p == nil {
+			return nil, false
+		}
+		<-p.exited
+		if !s.dead.Load() {
+			s.Yield("proc.wait#exited")
+		}
+		return p.err(), true
+	}
 	zzsimhook.GoFn = func(site string, f func()) {
 		s := current.Load()
 		if s == nil || s.dead.Load() {
